@@ -17,6 +17,8 @@ from ..tlc import MachineryError
 # Developer override (like VERIF_REPO; registered commands never set it): replay only every k-th enumerated state and
 # draw 1/k of the random cases, to try a mutant quickly.  With k > 1 no exhaustiveness is claimed.
 DEV_STRIDE = max(1, int(os.environ.get("VERIF_DEV_STRIDE", "1") or 1))
+# Developer override for cheap seed sweeps: skip direction 1 (which does not depend on the seed) altogether.
+DEV_RANDOM_ONLY = bool(os.environ.get("VERIF_DEV_RANDOM_ONLY"))
 
 ID = "C12"
 LEVEL = "model_checking"
@@ -365,29 +367,32 @@ def run(ctx: Ctx):
             ("anti_guess", dict(nchrom=2, grid=10, max_rows=3, max_w=2, sizes=[200, 301], pad=1, telo=2)),
             ("anti_contigs", dict(nchrom=3, grid=12, sizes=[300, 402], pad=2, namings=[1, 2, 3, 4])),
         ]
-    scope_notes = []
-    for k, (scope, kw) in enumerate(scopes):
-        cfg = ctx.cfg(f"mc-{k}-{scope}", invariants=["DesignOKModuloKnown", "DesignNoErr"], constants=_constants(scope, **kw))
-        r, states = ctx.mc("MC_Bins", cfg, timeout=3000)
-        inputs = _inputs_from_states(states, scope, kw.get("pad", 1), kw.get("telo", 1))
-        del states
-        if len(inputs) * 2 != r.distinct:
-            raise MachineryError(f"dump replay: {len(inputs)} calls parsed, TLC reports {r.distinct} states")
-        out = ctx.execute(execute, inputs[::DEV_STRIDE])
-        recs += out
-        scope_notes.append(f"{scope} {kw}: {len(out)} calls")
-        ctx.notes[f"scope{k}"] = {"scope": scope, "constants": kw, "tlc_states": r.distinct, "replayed": len(out)}
-    # the strict statement on small scopes: violated while the known findings are open (informational)
-    cfg = ctx.cfg("mc-strict-sizes", invariants=["DesignOK"],
-                  constants=_constants("anti_fixed", grid=8, max_rows=1, max_w=1, sizes=[202], pad=1))
-    ctx.mc("MC_Bins", cfg, dump=False, timeout=600)
-    cfg = ctx.cfg("mc-strict-contigs", invariants=["DesignOK"],
-                  constants=_constants("anti_contigs", nchrom=3, grid=10, sizes=[200], pad=1, namings=[2]))
-    ctx.mc("MC_Bins", cfg, dump=False, timeout=600)
-    ctx.exhaustive = "; ".join(scope_notes) + " -- every dumped call replayed (antitarget coordinates = grid x 500/Pad)"
+    if DEV_RANDOM_ONLY:
+        REQUIRE_ACTIONS.clear()
+    else:
+        scope_notes = []
+        for k, (scope, kw) in enumerate(scopes):
+            cfg = ctx.cfg(f"mc-{k}-{scope}", invariants=["DesignOKModuloKnown", "DesignNoErr"], constants=_constants(scope, **kw))
+            r, states = ctx.mc("MC_Bins", cfg, timeout=3000)
+            inputs = _inputs_from_states(states, scope, kw.get("pad", 1), kw.get("telo", 1))
+            del states
+            if len(inputs) * 2 != r.distinct:
+                raise MachineryError(f"dump replay: {len(inputs)} calls parsed, TLC reports {r.distinct} states")
+            out = ctx.execute(execute, inputs[::DEV_STRIDE])
+            recs += out
+            scope_notes.append(f"{scope} {kw}: {len(out)} calls")
+            ctx.notes[f"scope{k}"] = {"scope": scope, "constants": kw, "tlc_states": r.distinct, "replayed": len(out)}
+        # the strict statement on small scopes: violated while the known findings are open (informational)
+        cfg = ctx.cfg("mc-strict-sizes", invariants=["DesignOK"],
+                      constants=_constants("anti_fixed", grid=8, max_rows=1, max_w=1, sizes=[202], pad=1))
+        ctx.mc("MC_Bins", cfg, dump=False, timeout=600)
+        cfg = ctx.cfg("mc-strict-contigs", invariants=["DesignOK"],
+                      constants=_constants("anti_contigs", nchrom=3, grid=10, sizes=[200], pad=1, namings=[2]))
+        ctx.mc("MC_Bins", cfg, dump=False, timeout=600)
+        ctx.exhaustive = "; ".join(scope_notes) + " -- every dumped call replayed (antitarget coordinates = grid x 500/Pad)"
 
     n_rand = (30000 if thorough else 3000) // DEV_STRIDE
-    if DEV_STRIDE > 1:
+    if DEV_STRIDE > 1 or DEV_RANDOM_ONLY:
         ctx.exhaustive = None
         ctx.notes["dev_stride"] = DEV_STRIDE
     rnd = ctx.execute(execute, [random_target(ctx.rng) if k % 2 else random_antitarget(ctx.rng) for k in range(n_rand)])
